@@ -38,7 +38,7 @@ func (Engine) Info(prop string) core.Info {
 		Stub:         []string{"clock (testing/synctest)", "registered dialers (recording stubs)", "client goroutines"},
 		Assumptions:  []string{"library runs on the Go 1.26.8 standard library (net/url of 1.26.8), not 1.24.0", "workers run at GOMAXPROCS=1: calls at identical simulated instants are serialised by the runtime in timer order; the race detector's happens-before analysis does not depend on real overlap", "transport/telnet, ardop and ax25 are not linked into this binary, so no scheme is registered by package init"},
 		QuickRuns:    50000,
-		ThoroughRuns: 600000,
+		ThoroughRuns: 1500000,
 		WatchdogSec:  40,
 		// a dial that never returns neither dispatches nor reports: the registry
 		// deadlocking on itself (lock held while a dialer runs) shows up as a
